@@ -6,6 +6,7 @@ import (
 	"slices"
 	"sort"
 	"strings"
+	"time"
 
 	"github.com/nyaruka/goflow/assets"
 	"github.com/nyaruka/goflow/envs"
@@ -216,7 +217,9 @@ func (f FieldValues) Parse(env envs.Environment, fields *FieldAssets, field *Fie
 	}
 
 	if parsedDate, xerr := types.ToXDateTimeWithTimeFill(env, asText); xerr == nil {
-		asDateTime = parsedDate
+		// values are marshalled (in the contact and in contact_field_changed events) with microseconds, so anything
+		// finer can't be kept: otherwise the value differs from what is announced and from itself once read back
+		asDateTime = types.NewXDateTime(parsedDate.Native().Truncate(time.Microsecond))
 	}
 
 	var asLocation *envs.Location
